@@ -686,7 +686,12 @@ class UnionUnmarshaller(AbstractUnmarshaller[UnionT], tp.Generic[UnionT]):
         super().__init__(t, context, var=var)
         self.stack = inspection.args(t, evaluate=True)
         if inspection.isoptionaltype(t):
-            self.stack = (self.stack[-1], *self.stack[:-1])
+            # Always check for null first, wherever it was declared.
+            nulls = (None, types.NoneType)
+            self.stack = (
+                types.NoneType,
+                *(a for a in self.stack if a not in nulls),
+            )
 
         self.ordered_routines = [self.context[typ] for typ in self.stack]
 
